@@ -141,6 +141,8 @@ func runQS(c *Ctx, s *Sink) {
 		info := p.TypesInfo
 		var add *ast.BinaryExpr
 		clamp := false
+		clamped := map[types.Object]bool{} // the variables that hold a clamped score
+		minCalls := map[*ast.CallExpr]bool{}
 		ast.Inspect(fd.Body, func(n ast.Node) bool {
 			switch x := n.(type) {
 			case *ast.BinaryExpr:
@@ -154,6 +156,7 @@ func runQS(c *Ctx, s *Sink) {
 				if id, ok := x.Fun.(*ast.Ident); ok && id.Name == "min" && len(x.Args) == 2 && (isConstInt(info, x.Args[0], 93) || isConstInt(info, x.Args[1], 93)) {
 					if _, isBuiltin := info.Uses[id].(*types.Builtin); isBuiltin {
 						clamp = true
+						minCalls[x] = true
 					}
 				}
 			case *ast.IfStmt:
@@ -161,6 +164,13 @@ func runQS(c *Ctx, s *Sink) {
 					for _, st := range x.Body.List {
 						if as, ok := st.(*ast.AssignStmt); ok && len(as.Rhs) == 1 && isConstInt(info, as.Rhs[0], 93) {
 							clamp = true
+							if o := rootObj(info, as.Lhs[0]); o != nil {
+								if _, isIdent := ast.Unparen(as.Lhs[0]).(*ast.Ident); isIdent {
+									clamped[o] = true
+								} else if types.ExprString(as.Lhs[0]) == types.ExprString(b.X) {
+									clamped[o] = true // the element of the slice is clamped in place
+								}
+							}
 						}
 					}
 				}
@@ -172,6 +182,8 @@ func runQS(c *Ctx, s *Sink) {
 			s.Undecided(nil, key, fd.Pos(), "no quality + offset addition found")
 		case !clamp:
 			s.Fail(nil, key, fd.Pos(), "qualities are not clamped to 93 before the offset is added: values above 93 leave the printable range and cannot be read back")
+		case !qsUsesClamped(info, fd, add, clamped, minCalls):
+			s.Fail(nil, key, add.Pos(), "the clamp to 93 is computed but neither operand of the quality + offset addition is the clamped value ("+types.ExprString(add)+"): scores above 93 are written as bytes beyond '~', the line is not a FASTQ quality line and cannot be read back")
 		default:
 			acc := modPath + "/pkg/obioptions.OutputQualityShift"
 			okX, _ := allFrom(t.origins(p, fd, add.X, 0), acc)
@@ -193,11 +205,19 @@ func runQS(c *Ctx, s *Sink) {
 	info := p.TypesInfo
 	var sub ast.Expr
 	lenCheck := false
+	var qstack []ast.Node
 	ast.Inspect(fd.Body, func(n ast.Node) bool {
+		if n == nil {
+			qstack = qstack[:len(qstack)-1]
+			return true
+		}
+		qstack = append(qstack, n)
 		switch x := n.(type) {
 		case *ast.AssignStmt:
 			if x.Tok == token.SUB_ASSIGN && len(x.Rhs) == 1 {
 				sub = x.Rhs[0]
+			} else if sb := qsSubtraction(info, x, qstack); sb != nil {
+				sub = sb.off
 			}
 		case *ast.IfStmt:
 			if b, ok := ast.Unparen(x.Cond).(*ast.BinaryExpr); ok && b.Op == token.NEQ && strings.Contains(types.ExprString(b), "len(") && strings.Contains(types.ExprString(b), "Len()") && blockDiverges(info, x.Body) {
@@ -217,4 +237,41 @@ func runQS(c *Ctx, s *Sink) {
 		}
 	}
 	s.Check(lenCheck, nil, key+":length", fd.Pos(), "quality and sequence lengths are compared with a fatal branch", "the reader does not reject a record whose quality line and sequence differ in length")
+}
+
+// qsUsesClamped: one operand of the addition is the clamped score — a min(…, 93) call, a variable assigned 93 under 'if v > 93', or a variable defined from such a min call.
+func qsUsesClamped(info *types.Info, fd *ast.FuncDecl, add *ast.BinaryExpr, clamped map[types.Object]bool, minCalls map[*ast.CallExpr]bool) bool {
+	defs := collectDefs(info, fd)
+	var is func(e ast.Expr, depth int) bool
+	is = func(e ast.Expr, depth int) bool {
+		e = ast.Unparen(e)
+		if depth > 4 {
+			return false
+		}
+		switch x := e.(type) {
+		case *ast.CallExpr:
+			if minCalls[x] {
+				return true
+			}
+			if tv, ok := info.Types[x.Fun]; ok && tv.IsType() && len(x.Args) == 1 {
+				return is(x.Args[0], depth+1)
+			}
+		case *ast.Ident:
+			o := info.ObjectOf(x)
+			if clamped[o] {
+				return true
+			}
+			for _, d := range defs[o] {
+				if d != nil && is(d, depth+1) {
+					return true
+				}
+			}
+		case *ast.IndexExpr:
+			if o := rootObj(info, x.X); o != nil && clamped[o] {
+				return true
+			}
+		}
+		return false
+	}
+	return is(add.X, 0) || is(add.Y, 0)
 }
